@@ -144,6 +144,16 @@ func c10Amgr(worker int, seed string, focus waddrmgr.KeyScope, st []amgr.Op, op 
 		if d, x := amgr.DiffLines(live, preLive); x {
 			fail("error-left-memory-change:"+op.K+":"+site, "after the failed operation was rolled back the manager answers differently than before: (after | before) "+d, j)
 		}
+		// (b2) an unlocked manager still recognises its (unchanged) passphrase at once
+		if !w.Locked && !w.Watching {
+			evals++
+			err := w.View(func(ns walletdb.ReadBucket) error { return w.Mgr.Unlock(ns, append([]byte{}, w.PrivPass...)) })
+			if err != nil || w.Mgr.IsLocked() {
+				fail("error-left-memory-change:unlock:"+op.K+":"+site, fmt.Sprintf("after the failed operation was rolled back, Unlock with the current (unchanged) private passphrase on the still unlocked manager returned %v (locked=%v)", err, w.Mgr.IsLocked()), j)
+				w.Close()
+				continue
+			}
+		}
 		// (c) retry without fault
 		res2 := w.Apply(focus, op)
 		if res2.Err != nil || res2.Skipped {
